@@ -4,7 +4,9 @@
 //! `hickory_server::server::TimeoutStream`) over a scripted `DnsTcpStream`.
 //!
 //! Case line:  `io <wrap> <v|s> <read-script> <write-script> <prog>`
-//!   wrap   t = TcpStream, c = TcpClientStream, o = TimeoutStream(0 = off), O = TimeoutStream(1 h)
+//!   wrap   t = TcpStream, c = TcpClientStream, o = TimeoutStream(0 = off), O = TimeoutStream(1 h),
+//!          b = TcpStream::from_stream_with_buffer_size(.., 32), f = TcpStream::with_future (the
+//!          connection future is ready at once); b and f are the same machine as t for the model
 //!   v|s    socket with a real `poll_write_vectored` / with the default one only;
 //!          V|S the same two kinds of socket as a *tokio* transport behind the
 //!          `hickory_net::runtime::iocompat::AsyncIoTokioAsStd` adapter (V: own tokio socket that is
@@ -311,6 +313,8 @@ fn parse_case(t: &[&str]) -> Option<Case> {
         "c" => 'c',
         "o" => 'o',
         "O" => 'O',
+        "b" => 'b',
+        "f" => 'f',
         _ => return None,
     };
     let (vec, adapted) = match *vec {
@@ -433,15 +437,25 @@ fn run_case(c: &Case) -> RunOut {
             _ => Box::pin(TimeoutStream::new(tcp, Duration::from_secs(3600)).map(|r| r.map(|m| m.into_parts().0).map_err(|_| ()))),
         }
     }
+    /// the three ways of building a `TcpStream` around an established socket
+    fn make<S: DnsTcpStream>(wrap: char, s: S, peer: SocketAddr) -> (TcpStream<S>, hickory_net::BufDnsStreamHandle) {
+        match wrap {
+            'b' => TcpStream::from_stream_with_buffer_size(s, peer, 32),
+            'f' => {
+                let (fut, handle) = TcpStream::with_future(std::future::ready(Ok(s)), peer, Duration::from_secs(3600));
+                (tokio_rt().block_on(fut).expect("a ready connection future"), handle)
+            }
+            _ => TcpStream::from_stream(s, peer),
+        }
+    }
     let (mut stream, mut handle): (Items, _) = if !c.adapted {
-        let (tcp, handle) = TcpStream::from_stream(ScriptSock(sock.clone()), peer);
+        let (tcp, handle) = make(c.wrap, ScriptSock(sock.clone()), peer);
         (wrap(c.wrap, tcp), handle)
     } else if c.vec {
-        let (tcp, handle) = TcpStream::from_stream(Adapted(AsyncIoTokioAsStd(TokioSock(sock.clone()))), peer);
+        let (tcp, handle) = make(c.wrap, Adapted(AsyncIoTokioAsStd(TokioSock(sock.clone()))), peer);
         (wrap(c.wrap, tcp), handle)
     } else {
-        let (tcp, handle) =
-            TcpStream::from_stream(Adapted(AsyncIoTokioAsStd(AsyncIoStdAsTokio(ScriptSock(sock.clone())))), peer);
+        let (tcp, handle) = make(c.wrap, Adapted(AsyncIoTokioAsStd(AsyncIoStdAsTokio(ScriptSock(sock.clone())))), peer);
         (wrap(c.wrap, tcp), handle)
     };
     let flag = Arc::new(Flag(AtomicBool::new(false)));
@@ -1129,6 +1143,10 @@ pub fn run(o: &Opts, rec: &mut Recorder) {
         let mut l = gen_case(&mut r);
         if r.chance(1, 3) {
             l = adapted(&l);
+        }
+        if l.starts_with("io t ") && r.chance(1, 6) {
+            // the other two constructors of the same machine
+            l = format!("io {} {}", if r.chance(1, 2) { "b" } else { "f" }, &l[5..]);
         }
         exec(&l, rec);
     }
